@@ -29,13 +29,18 @@ class Resp(HumanResponseEvent):
     k: int = 0
 
 
+class Hum(HumanResponseEvent):
+    uid: str = ""
+    k: int = 0
+
+
 class Ask(InputRequiredEvent):
     uid: str = ""
     k: int = 0
 
 
 TYPES = {
-    "Start": StartEvent, "Stop": StopEvent, "A": EvA, "B": EvB, "C": EvC, "D": EvD, "Resp": Resp, "Ask": Ask,
+    "Start": StartEvent, "Stop": StopEvent, "A": EvA, "B": EvB, "C": EvC, "D": EvD, "Resp": Resp, "Hum": Hum, "Ask": Ask,
     "Failed": StepFailedEvent,
 }
 NAMES = {v: k for k, v in TYPES.items()}
